@@ -51,10 +51,11 @@ def garbledOf (m : Module) : List String :=
   (m.defined.map (·.1)).filter fun p => m.initWritten.contains p && m.exported.contains p && !faithful m p && !isComputedCounter m p
 
 /-- prefixes about whose re-imported content the model makes no prediction: filled from another prefix's records, read without
-decoding, or written in / after an InitGenesis loop that silently returns on a rejected record; and the counters recomputed
+decoding, written in / after an InitGenesis loop that silently returns on a rejected record, or written through a setter that
+can refuse a record; and the counters recomputed
 from such a prefix. (The round-trip monitors are evaluated on them like on every other prefix.) -/
 def unspecifiedOf (m : Module) : List String :=
-  let base := garbledOf m ++ m.undecoded ++ m.fragile
+  let base := garbledOf m ++ m.undecoded ++ m.fragile ++ m.rejecting
   base ++ ((computedCounters m).filter fun c =>
     match c.rule with
     | .maxId p | .lastId p | .count p => base.contains p
@@ -85,6 +86,10 @@ def unsourcedGaps (ms : List Module) : List (String × String) :=
 /-- stores whose import can stop silently half-way -/
 def fragileGaps (ms : List Module) : List (String × String) :=
   ms.flatMap fun m => m.fragile.map fun p => (m.name, p)
+
+/-- stores imported through a setter that can refuse individual records (the refused record is skipped) -/
+def rejectGaps (ms : List Module) : List (String × String) :=
+  ms.flatMap fun m => m.rejecting.map fun p => (m.name, p)
 
 /-- genesis fields ExportGenesis fills and InitGenesis never looks at -/
 def fieldGaps (ms : List Module) : List (String × String) :=
